@@ -410,13 +410,22 @@ func scratchRoot() string {
 	if err != nil {
 		panic(err)
 	}
+	scratchOwned = true
 	return d
 }
 
 var (
-	scratchOnce sync.Once
-	scratchDir  string
+	scratchOnce  sync.Once
+	scratchDir   string
+	scratchOwned bool // created by this process (no VERIF_TMP): removed by TestMain
 )
+
+// cleanupScratch removes the fallback scratch directory.
+func cleanupScratch() {
+	if scratchOwned && scratchDir != "" {
+		os.RemoveAll(scratchDir)
+	}
+}
 
 // goTool is the go1.25.9 toolchain the harness itself is built with (the
 // driver puts it first on PATH; the explicit path makes direct runs of the
